@@ -45,4 +45,9 @@ let handle (line : string) : string =
      | Ok sp -> (match tracked_text (bytes_of_string (atom file)) sp with
          | Ok t -> quote (string_of_bytes t) | Err -> "err" | Panic -> "PANIC model")
      | Err -> "err" | Panic -> "PANIC model")
+  | "trackedlc", [ file; sl; sc; el; ec ] ->
+    (match mkspan_of [ sl; sc; el; ec ] with
+     | Ok sp -> (match tracked_text (bytes_of_string (atom file)) sp with
+         | Ok t -> quote (string_of_bytes t) | Err -> "err" | Panic -> "PANIC model")
+     | Err -> "err" | Panic -> "PANIC model")
   | _ -> "ERR bad span case"
